@@ -613,7 +613,12 @@ impl AgentStatusSharedState {
                 &format!("{:?}", module),
                 logger::AGENT_LOGGER_KEY,
             );
-            message = format!("{}...", &message[0..MAX_STATUS_MESSAGE_LENGTH]);
+            // cut on a character boundary: slicing inside a multi-byte character panics
+            let mut end = MAX_STATUS_MESSAGE_LENGTH;
+            while !message.is_char_boundary(end) {
+                end -= 1;
+            }
+            message = format!("{}...", &message[0..end]);
         }
 
         ProxyAgentDetailStatus {
